@@ -192,6 +192,10 @@ def sliceConv (rPtr : Bool) : Res V E → Res V E
   | .nilPtr => .nil                                -- case *[]T, nil: zero / a nil *[]T
   | .nil => .nil                                   -- case nil: `toSliceConstraint(nil)` = zero
 
+/-- A type's `Parse`: its result conversion applied to `ParseComplex`'s answer (`conv` gets "R is a pointer"). -/
+def typeParse (conv : Bool → Res V E → Res V E) (env : CEnv P O T V E) (c : CCfg P O T V) (x : CIn V) : Res V E :=
+  conv c.i.ptrSchema (parse env c x)
+
 /-! ## The legacy `ParseComplexStrict` (parent of 692881a) -/
 
 /-- The input handed back unchanged (`return input, nil`): a value input stays a value, a pointer a pointer. -/
@@ -275,5 +279,21 @@ def fwd {I A E : Type} (f : I → Except E A) (x : I) : Except E A := f x
 def Res.toExcept {V E : Type} : Res V E → Except E (Res V E)
   | .err e => .error e
   | r => .ok r
+
+/-- What the six entry points of one schema answer on one input (`A`: results, `E`: errors). -/
+structure Six (A E : Type) where
+  p : Except E A
+  s : Except E A
+  a : Except E A
+  mp : Outcome A E
+  ms : Outcome A E
+  ma : Outcome A E
+
+/-- The six entry points as every schema type assembles them (`Gozod.C09.c09_table_wrappers`, `c09_table_bases`: whole
+    regenerated table): `Parse` and `StrictParse` are the type's own, `ParseAny` = `return z.Parse(…)`, `MustParse` /
+    `MustStrictParse` / `MustParseAny` = the must-wrapper of `Parse` / `StrictParse` / `ParseAny`. This is what the C09
+    driver runs, for the primitive path (`str`, `hist` lines) and for the complex path (`cpx` lines). -/
+def six {I A E : Type} (P S : I → Except E A) (x : I) : Six A E :=
+  { p := P x, s := S x, a := fwd P x, mp := must P x, ms := must S x, ma := must (fwd P) x }
 
 end Gozod.Cpx
